@@ -473,8 +473,8 @@ func cmdCase(argv []string) int {
 	} else {
 		rep := res[0].Report
 		if rep != nil {
-			fmt.Printf("paths=%d infeasible=%d decisions=%d steps=%d asserts(sym=%d conc=%d) queries(sat=%d unsat=%d unknown=%d fallbacks=%d, %.2fs max %.2fs) wall=%.2fs\n",
-				rep.Paths, rep.Infeasible, rep.Decisions, rep.Steps, rep.AssertsSym, rep.AssertsConc, rep.Queries.Sat, rep.Queries.Unsat, rep.Queries.Unknown, rep.Queries.Fallbacks*1000+rep.Queries.Cvc5, rep.Queries.Time.Seconds(), rep.Queries.MaxQuery.Seconds(), rep.WallS)
+			fmt.Printf("paths=%d infeasible=%d decisions=%d steps=%d asserts(sym=%d conc=%d) queries(sat=%d unsat=%d unknown=%d fallbacks=%d, %.2fs max %.2fs) wall=%.2fs cachehits=%d\n",
+				rep.Paths, rep.Infeasible, rep.Decisions, rep.Steps, rep.AssertsSym, rep.AssertsConc, rep.Queries.Sat, rep.Queries.Unsat, rep.Queries.Unknown, rep.Queries.Fallbacks*1000+rep.Queries.Cvc5, rep.Queries.Time.Seconds(), rep.Queries.MaxQuery.Seconds(), rep.WallS, rep.Queries.CacheHits)
 			var labels []string
 			for k := range rep.Discharged {
 				labels = append(labels, k)
